@@ -339,6 +339,10 @@ pub enum Op {
     ChmodLayer { layer: usize, mode: u32 },
     /// <layers>/<name>.toml gets this mode (restored with the permissions it was stored with)
     ChmodToml { layer: usize, mode: u32 },
+    /// <layers>/<name>.toml holds bytes that are not TOML at all (truncated by a crashed
+    /// earlier build). Used by C20 scenarios only: whatever a request does with it must not
+    /// depend on the process.
+    CorruptToml { layer: usize },
     /// the buildpack regenerates one of its exec.d source files in place (same path, new bytes)
     RewriteSource {
         idx: usize,
@@ -372,7 +376,8 @@ impl Op {
             | Op::TomlLink { layer, .. }
             | Op::ExecDAlias { layer, .. }
             | Op::ChmodLayer { layer, .. }
-            | Op::ChmodToml { layer, .. } => Some(*layer),
+            | Op::ChmodToml { layer, .. }
+            | Op::CorruptToml { layer } => Some(*layer),
             Op::Restore { .. } | Op::RewriteSource { .. } => None,
         }
     }
@@ -400,6 +405,7 @@ impl Op {
             Op::ExecDAlias { .. } => "ExecDAlias",
             Op::ChmodLayer { .. } => "ChmodLayer",
             Op::ChmodToml { .. } => "ChmodToml",
+            Op::CorruptToml { .. } => "CorruptToml",
             Op::RewriteSource { .. } => "RewriteSource",
             Op::Restore { .. } => "Restore",
         }
